@@ -351,7 +351,15 @@ pub fn mont_sparse(m: &N) -> BoxedStrategy<Num> {
 /// Target values for intermediate results: Montgomery-sparse, small / near-modulus / limb-pattern
 /// values, and a few uniform ones.
 pub fn structured_target() -> BoxedStrategy<Num> {
-    prop_oneof![4 => mont_sparse(&Q.m), 3 => fq_special(), 3 => two_adic_structured(), 1 => (0u32..4, any::<bool>()).prop_map(|(k, neg)| Num(if neg { Q.neg(&N::from(k)) } else { N::from(k) }))].boxed()
+    let hard: Vec<N> = crate::hard_inverse::hard_operands(253).into_iter().map(|(_, x)| x).collect();
+        prop_oneof![4 => mont_sparse(&Q.m), 3 => fq_special(), 3 => two_adic_structured(),
+        // operands whose inversion by division steps takes the longest known (the 32-bit square-root-of-ratio inverts its denominator)
+        1 => (any::<u16>(), 0u8..3).prop_map(move |(i, how)| {
+            if hard.is_empty() { return Num(N::one()); }
+            let x = hard[pick(i, hard.len())].clone();
+            Num(match how { 0 => x, 1 => Q.inv(&x).unwrap_or_default(), _ => Q.neg(&x) })
+        }),
+        1 => (0u32..4, any::<bool>()).prop_map(|(k, neg)| Num(if neg { Q.neg(&N::from(k)) } else { N::from(k) }))].boxed()
 }
 
 /// Elligator inputs r0 constructed so that one intermediate value of the map (r, the two factors of
